@@ -66,6 +66,7 @@ func c13ObjectProgram(rt *rapid.T) (string, []string) {
 	var b strings.Builder
 	b.WriteString("ফাংশন t(tag, v) { দেখাও tag; ফেরত v; }\n")
 	b.WriteString(bn.KwFun + " t2(v, w) { " + bn.KwReturn + " [v, w]; }\n")
+	b.WriteString(bn.KwFun + " tn(tag) { " + bn.KwPrint + " tag; }\n")
 	keys := []string{"zeta", "alpha", "mid", "ক", "b2", "k", "y", "omega"}
 	if rapid.Bool().Draw(rt, "equivalentKeys") {
 		// property names that are canonically equivalent but differently encoded are distinct keys
@@ -129,6 +130,9 @@ func c13ObjectProgram(rt *rapid.T) (string, []string) {
 					sub++
 					tg := fmt.Sprintf("%s.%d", tag, sub)
 					order = append(order, tg)
+					if rapid.IntRange(0, 3).Draw(rt, "nilProbe") == 0 {
+						return fmt.Sprintf("tn(\"%s\")", tg) // an initialiser with an effect whose value is nil
+					}
 					return fmt.Sprintf("t(\"%s\", %d)", tg, 10*o+i)
 				}
 			}
